@@ -49,3 +49,49 @@ pub fn vx_count_ascii_alphabetic(s: &str) -> (r: usize) { s.chars().filter(|c| c
 pub broadcast proof fn axiom_domain_len()
     ensures #[trigger] blen("._tcp.local."@) == 12, blen("._udp.local."@) == 12, blen(".local."@) == 7,
 {}
+
+// ---- name_change / hostname_change: std string operations as shims (byte-level facts from the std documentation) ----
+pub uninterp spec fn byte_at(s: Seq<char>, i: int) -> u8;
+#[verifier::external_body]
+pub broadcast proof fn axiom_paren_pat()
+    ensures #[trigger] blen(" ("@) == 2, byte_at(" ("@, 0) == 32u8, byte_at(" ("@, 1) == 40u8,
+{}
+// `s.split('.').collect::<Vec<&str>>()`: at least one part
+#[verifier::external_body]
+pub fn vx_split_dots<'a>(s: &'a str) -> (r: Vec<&'a str>)
+    ensures r@.len() >= 1,
+{ s.split('.').collect() }
+// `v.get_mut(0)`
+#[verifier::external_body]
+pub fn vx_vec_first_mut<'b, 'a>(v: &'b mut Vec<&'a str>) -> (r: Option<&'b mut &'a str>)
+    ensures
+        old(v)@.len() == 0 ==> r is None && *final(v) == *old(v),
+        old(v)@.len() > 0 ==> r is Some && *r->Some_0 == old(v)@[0] && final(v)@ == old(v)@.update(0, *final(r->Some_0)),
+{ v.get_mut(0) }
+// `s.rfind(pat)`: byte offset of the last match; the match lies inside s, on character boundaries
+#[verifier::external_body]
+pub fn vx_rfind(s: &str, pat: &str) -> (r: Option<usize>)
+    ensures blen(s@) <= isize::MAX, r is Some ==> r->Some_0 + blen(pat@) <= blen(s@) && char_boundary(s@, r->Some_0 as int) && char_boundary(s@, r->Some_0 + blen(pat@))
+        && forall|i: int| 0 <= i < blen(pat@) ==> byte_at(s@, r->Some_0 + i) == #[trigger] byte_at(pat@, i),
+{ s.rfind(pat) }
+#[verifier::external_body]
+pub fn vx_rfind_char(s: &str, c: char) -> (r: Option<usize>)
+    ensures blen(s@) <= isize::MAX, r is Some && c == '-' ==> r->Some_0 + 1 <= blen(s@) && char_boundary(s@, r->Some_0 as int) && char_boundary(s@, r->Some_0 + 1),
+{ s.rfind(c) }
+// `s.find(c)` for an ASCII char: the first byte equal to it
+#[verifier::external_body]
+pub fn vx_find_char(s: &str, c: char) -> (r: Option<usize>)
+    ensures blen(s@) <= isize::MAX, r is Some && c == ')' ==> r->Some_0 < blen(s@) && byte_at(s@, r->Some_0 as int) == 41u8 && char_boundary(s@, r->Some_0 as int) && char_boundary(s@, r->Some_0 + 1),
+{ s.find(c) }
+// `&s[n..]` with the bytes it keeps
+#[verifier::external_body]
+pub fn vx_str_from_b(s: &str, n: usize) -> (r: &str)
+    requires n <= blen(s@), char_boundary(s@, n as int),
+    ensures blen(r@) == blen(s@) - n, forall|i: int| 0 <= i < blen(r@) ==> #[trigger] byte_at(r@, i) == byte_at(s@, n + i),
+        forall|i: int| 0 <= i <= blen(r@) ==> (#[trigger] char_boundary(r@, i) == char_boundary(s@, n + i)),
+{ &s[n..] }
+pub struct ParseIntError {}
+#[verifier::external_body]
+pub fn vx_parse_u32(s: &str) -> (r: core::result::Result<u32, ParseIntError>) { unimplemented!() } // s.parse::<u32>()
+#[verifier::external_body]
+pub fn vx_join_dots(v: &Vec<&str>) -> (r: String) { v.join(".") }
